@@ -10,8 +10,9 @@
    is an arbitrary list of show_error calls; settings are arbitrary. *)
 From Coq Require Import List Bool NArith ZArith Arith.
 Import ListNotations.
+Require Import PV.Options.Base PV.Options.Parse PV.Gen.Options PV.Proofs.OptionsParse.
 Require Import PV.Lines.Text PV.Lines.Suppress PV.Lines.Place.
-Require Import PV.Proofs.LinesSuppress PV.Proofs.LinesText PV.Proofs.LinesPlace PV.Proofs.LinesGen.
+Require Import PV.Proofs.LinesSuppress PV.Proofs.LinesText PV.Proofs.LinesPlace PV.Proofs.LinesGen PV.Proofs.LinesOptions.
 Require Import PV.Gen.Codes PV.Gen.SuppressGen.
 
 Notation IGN := IGNORE_COMMENT.
@@ -68,12 +69,75 @@ Theorem C11_disable_is_projection_comment_free : forall S st f raw,
 Proof. exact (fun S st f raw => disable_emit_projection_comment_free IGN nm S st f U B raw). Qed.
 Print Assumptions C11_disable_is_projection_comment_free.
 
+(* end to end: D(P, disable S) is computed from the raw stream the checker produces *under the
+   disabling configuration*.  It is the projection of D(P) whenever that stream, restricted to the
+   codes that stay enabled, is the one produced with everything enabled — an explicit, decidable
+   hypothesis that the harness checks for every program and code subset (a change that makes a probe
+   under catch_errors() see fewer errors when a code is disabled violates exactly it) *)
+Theorem C11_disable_end_to_end : forall S st f raw raw',
+  raw_indep S st raw raw' ->
+  main IGN nm (disable S st) f raw' = filter (not_in S) (main IGN nm st f raw).
+Proof. exact (disable_end_to_end IGN nm). Qed.
+Print Assumptions C11_disable_end_to_end.
+
+Theorem C11_disable_end_to_end_comment_free : forall S st f raw raw',
+  comment_free IGN f -> raw_indep S st raw raw' ->
+  emit IGN nm (disable S st) f U B raw' = filter (not_in S) (emit IGN nm st f U B raw).
+Proof. exact (fun S st f raw raw' => disable_end_to_end_comment_free IGN nm S st f U B raw raw'). Qed.
+Print Assumptions C11_disable_end_to_end_comment_free.
+
 (* the hypothesis of the full form cannot be dropped: disabling the only code an
    `ignore[code]` comment suppresses makes that comment unused (and reported) *)
 Theorem C11_disable_full_needs_same_used : exists S st f raw,
   emit IGN nm (disable S st) f U B raw <> filter (not_in S) (emit IGN nm st f U B raw).
 Proof. exact disable_full_counterexample. Qed.
 Print Assumptions C11_disable_full_needs_same_used.
+
+(* ---- the disabling routes, through the option lookup of C18 ------------ *)
+
+(* is_enabled is Options.is_error_code_enabled: C18's `effective` for an error-code option.
+   Whatever the route, a new configuration under which every code of S looks up 0 and every
+   other code is configured as before yields the projection *)
+Theorem C11_config_disable_projection : forall (cf cf' : N -> code_conf) S mp f raw,
+  (forall c, mem_N c S = true ->
+     effective true (cf_files (cf' c)) (cf_cli (cf' c)) (cf_default (cf' c)) mp = Some (Some 0%Z)) ->
+  (forall c, mem_N c S = false -> cf' c = cf c) ->
+  main IGN nm (enabled_by cf' mp) f raw = filter (not_in S) (main IGN nm (enabled_by cf mp) f raw).
+Proof. exact (config_disable_projection IGN nm). Qed.
+Print Assumptions C11_config_disable_projection.
+
+(* command line / `settings`: a `False` instance for every code of S wins over any accepted file stack
+   (uses C18_cli_wins) *)
+Theorem C11_cli_route_projection : forall cf S mp f raw,
+  (forall c, mem_N c S = true -> exists l, parse_main true (cf_files (cf c)) = Ok l) ->
+  main IGN nm (enabled_by (with_cli_off S cf) mp) f raw
+  = filter (not_in S) (main IGN nm (enabled_by cf mp) f raw).
+Proof. exact (cli_route_projection IGN nm). Qed.
+Print Assumptions C11_cli_route_projection.
+
+(* main config file, top-level setting or per-module override: no command-line instance for the
+   codes of S, and every setting of the main file applicable to module path mp (at least one) is
+   `false` — no extended file can re-enable the code (uses C18_main_beats_extended) *)
+Theorem C11_file_route_projection : forall cf cf' S mp f raw,
+  (forall c, mem_N c S = true ->
+     cf_cli (cf' c) = [] /\
+     exists l sec, parse_main true (cf_files (cf' c)) = Ok l /\ nth_error (cf_files (cf' c)) 0 = Some sec /\
+       (exists y, In y (own true sec 0) /\ is_applicable_to y mp = true) /\
+       (forall y, In y (own true sec 0) -> is_applicable_to y mp = true -> value y = 0%Z)) ->
+  (forall c, mem_N c S = false -> cf' c = cf c) ->
+  main IGN nm (enabled_by cf' mp) f raw = filter (not_in S) (main IGN nm (enabled_by cf mp) f raw).
+Proof. exact (file_route_projection IGN nm). Qed.
+Print Assumptions C11_file_route_projection.
+
+(* the routes are inhabited: an override section for module prefix [1] that sets the code to false
+   disables it for module [1; 2] and not for module [3], against a top-level `true` *)
+Example C11_override_route_example :
+  let files := [[ESet 1%Z; EOverrides (OVList [OSec (Some [1%N]) [ESet 0%Z]])]] in
+  let cf := fun _ : N => mk_conf files [] 1%Z in
+  enabled_by cf [1%N; 2%N] 3%N = false /\ enabled_by cf [3%N] 3%N = true /\
+  enabled_by (with_cli_off [3%N] cf) [3%N] 3%N = false /\ enabled_by (with_cli_off [3%N] cf) [3%N] 9%N = true.
+Proof. vm_compute. repeat split. Qed.
+Print Assumptions C11_override_route_example.
 
 (* ---- what one comment suppresses ------------------------------------- *)
 
